@@ -18,7 +18,7 @@ LEVEL = "model_checking"
 
 FIELDS = {
     "quick": dict(
-        Types=["ATOM", "HETATM"], Serials=["1", "9999", "10000", "99999", "100000"], Names=["N", "CA", "HB2", "HD11"],
+        Types=["ATOM", "HETATM"], Serials=["1", "9999", "10000", "99999", "100000"], Names=["N", "CA", "HB2", "O1AL", "PH1A", "CL", "HD11"],
         ResNames=["A", "DA", "ALA", "NALA"], Chains=["", "A"], ResSeqs=["-5", "1", "999", "1000", "-100", "10000"],
         ICodes=["", "A"], Xs=["0.000", "-0.001", "999.999", "-99.999", "-100.000", "-999.999", "-1000.000", "9999.999",
                              "-1234.568", "10000.000"],
@@ -26,7 +26,7 @@ FIELDS = {
         Radii=["1.8240", "0.0000"]),
     "thorough": dict(
         Types=["ATOM", "HETATM"], Serials=["1", "42", "9999", "10000", "99999", "100000", "1234567"],
-        Names=["N", "CA", "HB2", "HD11", "1HB"], ResNames=["A", "DA", "ALA", "NALA", "HOH"], Chains=["", "A", "z"],
+        Names=["N", "CA", "HB2", "HD11", "O1AL", "PH1A", "LIPF", "FE", "CL", "IP", "HD1F", "1HB"], ResNames=["A", "DA", "ALA", "NALA", "HOH"], Chains=["", "A", "z"],
         ResSeqs=["-999", "-100", "-5", "0", "1", "999", "1000", "9999", "10000", "99999"], ICodes=["", "A"],
         Xs=["0.000", "-0.001", "999.999", "-99.999", "-100.000", "-999.999", "-1000.000", "1000.000", "9999.999",
             "10000.000", "-1234.568", "12345.678", "-9999.999", "-99999.999", "99999.999"],
@@ -230,7 +230,9 @@ def run(ctx):
                 ctx.nontrivial.add(json.dumps(f, sort_keys=True))
     # (T) atom lines of real runs
     runs = [("cterm_hid.pdb", ["--ff=AMBER"]), ("cterm_hid.pdb", ["--ff=PARSE", "--whitespace", "--keep-chain"]),
-            ("1AJJ.pdb", ["--ff=CHARMM", "--keep-chain", "--ffout=AMBER"]), ("1AJJ.pdb", ["--ff=AMBER", "--whitespace"])]
+            ("1AJJ.pdb", ["--ff=CHARMM", "--keep-chain", "--ffout=AMBER"]), ("1AJJ.pdb", ["--ff=AMBER", "--whitespace"]),
+            ("cterm_hid.pdb", ["--clean", "--keep-chain"]), ("1AJJ.pdb", ["--clean", "--keep-chain", "--whitespace"]), ("1AJJ.pdb", ["--clean"]),
+            ("1A1P.pdb", ["--ff=AMBER", "--assign-only", "--keep-chain"])]
     if not ctx.quick:
         runs += [("1K1I.pdb", ["--ff=AMBER", "--whitespace", "--keep-chain"]), ("1K1I.pdb", ["--ff=PARSE", "--keep-chain"]),
                  ("1BX8.pdb", ["--ff=SWANSON", "--whitespace", "--ffout=CHARMM"])]
